@@ -217,3 +217,21 @@ Qed.
 
 Lemma swaps_injective l : NoDup (names_of_swaps l) -> injective (swaps l).
 Proof. intros Hn a b H. rewrite <- (swaps_involutive l Hn a), H. apply swaps_involutive. exact Hn. Qed.
+
+Lemma swaps_snake l :
+  Forall (fun p => is_snake_case (fst p) = is_snake_case (snd p)) l ->
+  forall x, is_snake_case (swaps l x) = is_snake_case x.
+Proof.
+  induction 1 as [|[a b] r Hab _ IH]; intros x; [reflexivity|]. cbn [swaps]. cbn [fst snd] in Hab.
+  destruct (String.eqb_spec x a) as [->|_]; [symmetry; exact Hab|].
+  destruct (String.eqb_spec x b) as [->|_]; [exact Hab|apply IH].
+Qed.
+
+Lemma swaps_fix l x : ~ In x (names_of_swaps l) -> swaps l x = x.
+Proof.
+  induction l as [|[a b] r IH]; intros Hn; [reflexivity|]. cbn [swaps].
+  cbn [names_of_swaps flat_map fst snd app] in Hn.
+  destruct (String.eqb_spec x a) as [->|_]; [elim Hn; left; reflexivity|].
+  destruct (String.eqb_spec x b) as [->|_]; [elim Hn; right; left; reflexivity|].
+  apply IH. intros H. apply Hn. right. right. exact H.
+Qed.
